@@ -4,9 +4,17 @@ package inmemory
 
 // Verification harness (build tag verif only; see /verif/DESIGN.md, C05).
 
-// verifInterfere stands for "other goroutines run here". It does nothing when executed; its
-// contract (in zz_contracts_verif.go) lets the content of the checkpoints map change arbitrarily.
-func verifInterfere(p *inMemoryPersistence) {}
+// verifInterfere stands for "other goroutines run here". Its contract (in zz_contracts_verif.go, assumed: the body
+// is not verified) lets the content of the checkpoints map change arbitrarily. When executed it does nothing,
+// unless a replay test has installed verifInterfereHook to run a competing operation at this point.
+func verifInterfere(p *inMemoryPersistence) {
+	if verifInterfereHook != nil {
+		verifInterfereHook(p)
+	}
+}
+
+// verifInterfereHook is set only by the replay tests of /verif (never in production builds: build tag verif).
+var verifInterfereHook func(p *inMemoryPersistence)
 
 // verifScenarioWrite is the storage-level shape of one Witness.Update against this store, with
 // other goroutines running between any two storage operations: open a write handle, read the
